@@ -136,6 +136,9 @@ class Client(kernel.Actor):
             # fault: the relay's wall clock jumps (monotonic time is unaffected)
             self.sim.clock.skew += float(it[1])
             self.sim.faults["clock_jump"] += 1
+            # (stamp, wall clock right after the jump): oracles that judge "what time was it for the relay
+            # while it handled this frame" need every value the clock took in between
+            self.world.clock_jumps.append((self.sim.stamp(), self.sim.clock.wall()))
 
     def disconnect(self):
         import falcon
@@ -193,6 +196,7 @@ class RelayWorld:
         self.backend = backend
         self.env = RunEnv(sim, backend, cfg=cfg, storage_opts=storage_opts)
         self.env.track_states = True
+        self.clock_jumps = []
         self.clients = [Client(self, i, c["script"], addr=c.get("addr"), slow=c.get("slow", False),
                                origin=c.get("origin", "")) for i, c in enumerate(clients)]
         self.message_timeout = message_timeout
